@@ -164,6 +164,48 @@ class ScheduleFamily(Family):
         return Result('%s,%s' % (level, 'drops-next' if w < v else 'flat-next'), nontriv, None, 2)
 
 
+class CoexistingSchedules(Family):
+    """several schedule objects alive at once: each keeps to its own parameters"""
+    name = 'schedules_coexisting'
+    timeout = 5.0
+    SPECS = [['geo', '0.5'], ['geo', '0.9'], ['geo', '0.25'], ['geo', '1'], ['geo', '0'], ['lin', '1', '4', '0.2'],
+             ['lin', '2', '2', '0.5'], ['lin', '3', '1', '0'], ['rec']]
+    rule = ('every ordered pair (A, B) of 9 built-in schedule objects (5 GeometricCredit factors, 3 LinearCredit settings, '
+            'ReciprocalCredit) created side by side and called alternately at attempts n, n, n+1, n+1, 1, 1, 7, 7 for n in 1..6: every '
+            'value equals the exact documented value of ITS OWN schedule')
+
+    def cases(self, tier):
+        for a in range(len(self.SPECS)):
+            for b in range(len(self.SPECS)):
+                if a != b:
+                    for n in range(1, 7):
+                        yield (a, b, n)
+
+    def describe(self, case):
+        a, b, n = case
+        return {'A': ref.describe_spec(self.SPECS[a]), 'B': ref.describe_spec(self.SPECS[b]), 'first attempt asked': n}
+
+    def check(self, case):
+        a, b, n = case
+        A, B = make_builtin(self.SPECS[a]), make_builtin(self.SPECS[b])
+        calls = 0
+        for att in (n, n + 1, 1, 7):
+            for spec, obj, who in ((self.SPECS[a], A, 'A'), (self.SPECS[b], B, 'B')):
+                calls += 1
+                try:
+                    v = obj(att)
+                except Exception as e:
+                    return Result('raised', True, viol('coexisting:raised', '%s raised %r at attempt %d' % (who, e, att)), calls)
+                ex = float(ref.exact(spec, att))
+                if isinstance(v, bool) or not isinstance(v, (int, float)) or abs(v - ex) > ref.ROUND_BAND:
+                    return Result('wrong', True,
+                                  viol('coexisting:%s:not-its-own-documented-value' % type(obj).__name__,
+                                       '%s = %s next to %s: value %r at attempt %d, its documentation gives %.6f'
+                                       % (who, ref.describe_spec(spec), ref.describe_spec(self.SPECS[b] if who == 'A' else self.SPECS[a]),
+                                          v, att, ex), ex, v), calls)
+        return Result('own-values', True, None, calls)
+
+
 # --------------------------------------------------------------------------- judging a graded result
 
 def entries_of(result):
@@ -713,4 +755,4 @@ def families(tier):
                        'ReciprocalCredit x attempts 1..200 (thorough 1..5000) against exactly 1/n'),
     ]
     graders = [StringBuiltin(), TableCustom(), ListVectors(), RawResults(), OtherGraders()]
-    return fams + graders + [FeatureOff(graders), AttemptHistory()]
+    return fams + [CoexistingSchedules()] + graders + [FeatureOff(graders), AttemptHistory()]
